@@ -5,6 +5,8 @@ package conversion
 // Contracts for the verifier in /verif (comment-only file; no declarations).
 
 //@ func fixedPartition(input, fraction, output1, output2)
+//@   kernel
+//@   states none
 //@   noalias
 //@   safety C16
 //@   requires input.len == output1.len && input.len == output2.len
@@ -17,6 +19,8 @@ package conversion
 //@   loop 0 invariant forall(t, 0, i, output1.at(t) == input.at(t)*fraction)
 
 //@ func variablePartition(input, fraction, output1, output2)
+//@   kernel
+//@   states none
 //@   noalias
 //@   safety C16
 //@   requires input.len == output1.len && input.len == output2.len && input.len == fraction.len
@@ -28,6 +32,8 @@ package conversion
 //@   loop 0 invariant forall(t, 0, i, output1.at(t) == input.at(t)*fraction.at(t))
 
 //@ func applyScaling(input, scale, output)
+//@   kernel
+//@   states none
 //@   noalias
 //@   safety C16
 //@   requires input.len == output.len
@@ -38,6 +44,8 @@ package conversion
 //@   loop 0 invariant forall(t, 0, i, output.at(t) == input.at(t)*scale)
 
 //@ func depthToRate(inputs, deltaT, area, outflows)
+//@   kernel
+//@   states none
 //@   noalias
 //@   safety C16
 //@   requires inputs.len == outflows.len && deltaT > 0
@@ -48,6 +56,8 @@ package conversion
 //@   loop 0 invariant forall(t, 0, i, outflows.at(t) == inputs.at(t) * (0.001 * area / deltaT))
 
 //@ func ratingPartition(input, nPts, inputAmount, proportion, output1, output2)
+//@   kernel
+//@   states none
 //@   noalias
 //@   safety C16
 //@   requires input.len == output1.len && input.len == output2.len
